@@ -1064,6 +1064,30 @@ func c19Clamp(v ssa.Value, env map[*ssa.Parameter]c19Clamped, depth int) c19Clam
 			return r
 		}
 	}
+	if ph, ok := v.(*ssa.Phi); ok && depth <= 4 {
+		// guarded assignment: x' = phi[x, K] under a comparison
+		if len(ph.Edges) == 2 {
+			if d := ph.Block().Idom(); d != nil && len(d.Instrs) > 0 {
+				if iff, isIf := d.Instrs[len(d.Instrs)-1].(*ssa.If); isIf {
+					var vt, vf ssa.Value
+					for i, pr := range ph.Block().Preds {
+						switch {
+						case (pr == d && d.Succs[0] == ph.Block()) || (pr != d && d.Succs[0].Dominates(pr) && len(d.Succs[0].Preds) == 1):
+							vt = ph.Edges[i]
+						case (pr == d && d.Succs[1] == ph.Block()) || (pr != d && d.Succs[1].Dominates(pr) && len(d.Succs[1].Preds) == 1):
+							vf = ph.Edges[i]
+						}
+					}
+					if cond, isC := iff.Cond.(*ssa.BinOp); isC && vt != nil && vf != nil {
+						if r, ok := c19Select(cond, c19Clamp(vt, env, depth+1), c19Clamp(vf, env, depth+1), env, depth); ok {
+							return r
+						}
+					}
+				}
+			}
+		}
+		return c19Clamped{x: v}
+	}
 	call, ok := v.(*ssa.Call)
 	if !ok || depth > 4 {
 		return c19Clamped{x: v}
@@ -1108,7 +1132,110 @@ func c19Clamp(v ssa.Value, env map[*ssa.Parameter]c19Clamped, depth int) c19Clam
 			return c19Clamp(ret.Results[0], ne, depth+1)
 		}
 	}
+	// loop-free helper with guarded assignments / early returns
+	if fn := call.Call.StaticCallee(); fn != nil && isOwn(fn) && len(fn.Blocks) > 1 && len(fn.Blocks) <= 12 && len(fn.Params) == len(call.Call.Args) {
+		ne := map[*ssa.Parameter]c19Clamped{}
+		for i, p := range fn.Params {
+			ne[p] = c19Clamp(call.Call.Args[i], env, depth+1)
+		}
+		var from func(b *ssa.BasicBlock, steps int) (c19Clamped, bool)
+		from = func(b *ssa.BasicBlock, steps int) (c19Clamped, bool) {
+			if steps > 16 || len(b.Instrs) == 0 {
+				return c19Clamped{}, false
+			}
+			switch last := b.Instrs[len(b.Instrs)-1].(type) {
+			case *ssa.Return:
+				if len(last.Results) != 1 {
+					return c19Clamped{}, false
+				}
+				return c19Clamp(last.Results[0], ne, depth+1), true
+			case *ssa.Jump:
+				return from(b.Succs[0], steps+1)
+			case *ssa.If:
+				cond, isC := last.Cond.(*ssa.BinOp)
+				t, ok1 := from(b.Succs[0], steps+1)
+				f, ok2 := from(b.Succs[1], steps+1)
+				if !isC || !ok1 || !ok2 {
+					return c19Clamped{}, false
+				}
+				return c19Select(cond, t, f, ne, depth+1)
+			}
+			return c19Clamped{}, false
+		}
+		if r, ok := from(fn.Blocks[0], 0); ok {
+			return r
+		}
+	}
 	return c19Clamped{x: v}
+}
+
+func (a c19Clamped) isConst() bool { return a.x == nil && a.lo != nil && a.hi != nil && *a.lo == *a.hi }
+
+func c19SameBound(a, b *int64) bool {
+	return (a == nil && b == nil) || (a != nil && b != nil && *a == *b)
+}
+
+// c19Select: the value "if L rel R then T else F" in the clamp domain. Understood:
+// a comparison of the clamped variable C (plain, or identical to the surviving
+// branch value E) with a constant K where the guarded branch yields K:
+// C < K ? K : E  =  clamp(x; K, hi(E))   and   C > K ? K : E  =  clamp(x; lo(E), K),
+// both provided lo(E) <= K <= hi(E) for the bounds that exist.
+func c19Select(cond *ssa.BinOp, t, f c19Clamped, env map[*ssa.Parameter]c19Clamped, depth int) (c19Clamped, bool) {
+	// both branches yield the same value (the branch only fed a phi evaluated on its own)
+	if (t.x != nil || t.isConst()) && ((t.x == nil && f.x == nil) || (t.x != nil && f.x != nil && c19Strip(t.x) == c19Strip(f.x))) && c19SameBound(t.lo, f.lo) && c19SameBound(t.hi, f.hi) {
+		if _, opaque := t.x.(*ssa.Phi); !opaque {
+			return t, true
+		}
+	}
+	l, r := c19Clamp(cond.X, env, depth+1), c19Clamp(cond.Y, env, depth+1)
+	op := cond.Op
+	flip := map[token.Token]token.Token{token.LSS: token.GTR, token.GTR: token.LSS, token.LEQ: token.GEQ, token.GEQ: token.LEQ}
+	neg := map[token.Token]token.Token{token.LSS: token.GEQ, token.GEQ: token.LSS, token.LEQ: token.GTR, token.GTR: token.LEQ}
+	if _, ok := flip[op]; !ok {
+		return c19Clamped{}, false
+	}
+	var cv, kv c19Clamped
+	switch {
+	case l.isConst() && !r.isConst():
+		cv, kv, op = r, l, flip[op]
+	case r.isConst() && !l.isConst():
+		cv, kv = l, r
+	default:
+		return c19Clamped{}, false
+	}
+	var e c19Clamped
+	switch {
+	case t.isConst() && !f.isConst():
+		e = f
+		if *t.lo != *kv.lo {
+			return c19Clamped{}, false
+		}
+	case f.isConst() && !t.isConst():
+		e, op = t, neg[op]
+		if *f.lo != *kv.lo {
+			return c19Clamped{}, false
+		}
+	default:
+		return c19Clamped{}, false
+	}
+	k := *kv.lo
+	if cv.x == nil || e.x == nil || c19Strip(cv.x) != c19Strip(e.x) {
+		return c19Clamped{}, false
+	}
+	plain := cv.lo == nil && cv.hi == nil
+	if !plain && !(c19SameBound(cv.lo, e.lo) && c19SameBound(cv.hi, e.hi)) {
+		return c19Clamped{}, false
+	}
+	if (e.lo != nil && *e.lo > k) || (e.hi != nil && *e.hi < k) {
+		return c19Clamped{}, false
+	}
+	res := c19Clamped{x: e.x, lo: e.lo, hi: e.hi}
+	if op == token.LSS || op == token.LEQ {
+		res.lo = &k
+	} else {
+		res.hi = &k
+	}
+	return res, true
 }
 
 func c19FloatConst(v ssa.Value) (float64, bool) {
@@ -1623,9 +1750,21 @@ func c19R3(c *Ctx, p *Prog) {
 		h := hc.Call.StaticCallee()
 		rec := tv.array(h, []int{pos})
 		v := ssa.Value(h.Params[pos])
+		accMode := false
+		if len(h.Params) == 2 && len(hc.Call.Args) == 2 && h.Signature.Results().Len() == 1 {
+			_, s1 := h.Params[1-pos].Type().Underlying().(*types.Slice)
+			_, s2 := h.Signature.Results().At(0).Type().Underlying().(*types.Slice)
+			accMode = s1 && s2
+		}
+		if accMode {
+			tv.accumulator(h, hc, rec, pos, kF64, kArr, &done)
+		}
 		// leaf: one element, the leaf's value
 		rets := c19Returns(c19LeafBlocks(h, v, kF64))
-		if len(rets) == 0 {
+		if accMode {
+			rets, rec = nil, nil
+		}
+		if len(rets) == 0 && !accMode {
 			c.Undec(rule, tv.key("leaf"), h.Pos(), "%s: no return under Kind()==Float64", fnName(h))
 		}
 		for _, r := range rets {
@@ -1648,7 +1787,9 @@ func c19R3(c *Ctx, p *Prog) {
 			tv.concat(h, rec, c19Returns(c19LeafBlocks(h, v, kArr)), "concat.helper", &done)
 		}
 		// top: append in order
-		tv.appendTop(hc, &done)
+		if !accMode {
+			tv.appendTop(hc, &done)
+		}
 	}
 
 	// --- SetVector / setFieldFloats ---
@@ -1816,6 +1957,84 @@ func c19R3(c *Ctx, p *Prog) {
 	}
 	c.Floor(rule+".order", nAsc, 4, "ascending loops (today 9: field walks of ToVector, SetVector, TunedParams and both sides of EngineCoeffs, 4 array walks; a shared field iterator is counted per user)")
 	c.Floor(rule, done, 8, "leaf / concatenation / advance / counter obligations discharged (today 13)")
+}
+
+// accumulator: the accumulator-passing form of the vector builder, h(acc, v) []float64:
+// a Float64 leaf returns append(acc, v.Float()) (exactly one element), the array
+// case threads acc through its recursive calls in index order and returns it, and
+// the top level threads its result vector through the helper field by field.
+func (t *c19Trav) accumulator(h *ssa.Function, hc *ssa.Call, rec *ssa.Call, pos int, kF64, kArr int64, done *int) {
+	c, rule := t.c, t.rule
+	v, acc := ssa.Value(h.Params[pos]), ssa.Value(h.Params[1-pos])
+	isAcc := func(x ssa.Value) bool { return x == acc }
+	// leaf
+	rets := c19Returns(c19LeafBlocks(h, v, kF64))
+	if len(rets) == 0 {
+		c.Undec(rule, t.key("leaf"), h.Pos(), "%s: no return under Kind()==Float64", fnName(h))
+	}
+	for _, r := range rets {
+		app, isApp := c19IsBuiltin(r.Results[0], "append")
+		if !isApp || len(app.Call.Args) != 2 {
+			c.Undec(rule, t.key("leaf"), r.Pos(), "%s: the Float64 case does not return append(acc, …)", fnName(h))
+			continue
+		}
+		n, val := c19SliceLit(app.Call.Args[1])
+		name, recv, _, okc := c19Refl(val)
+		switch {
+		case app.Call.Args[0] != acc && n == 1 && app.Call.Args[1] == acc:
+			c.Fail(rule, t.key("leaf"), r.Pos(), "%s: the leaf is put in front of the accumulator: elements come out in reverse order relative to SetVector/TunedParams", fnName(h))
+		case app.Call.Args[0] != acc || n < 0 || val == nil:
+			c.Undec(rule, t.key("leaf"), r.Pos(), "%s: the Float64 case does not append a literal element list to its accumulator parameter", fnName(h))
+		case n != 1:
+			c.Fail(rule, t.key("leaf"), r.Pos(), "%s: a Float64 leaf contributes %d vector elements; SetVector and TunedParams count one per leaf, so every later coefficient is shifted", fnName(h), n)
+		case okc && name == "Value.Float" && recv == v:
+			c.Ok(rule, t.key("leaf"), r.Pos(), "%s: a Float64 leaf appends exactly one element, v.Float(), to the accumulator", fnName(h))
+			*done++
+		default:
+			c.Undec(rule, t.key("leaf"), r.Pos(), "%s: the single leaf element is not v.Float()", fnName(h))
+		}
+	}
+	// array: accumulator threaded through the recursion, and returned
+	if rec != nil {
+		a := rec.Call.Args[1-pos]
+		threaded := a == acc || c19AccOK(a, rec, isAcc)
+		okRet := true
+		arets := c19Returns(c19LeafBlocks(h, v, kArr))
+		for _, r := range arets {
+			if !(r.Results[0] == ssa.Value(rec) || c19AccOK(r.Results[0], rec, isAcc)) {
+				okRet = false
+			}
+		}
+		if _, isPhi := a.(*ssa.Phi); threaded && isPhi && okRet && len(arets) > 0 {
+			c.Ok(rule, t.key("concat.helper"), rec.Pos(), "%s: the array case threads the accumulator through its recursive calls in index order and returns it", fnName(h))
+			*done++
+		} else {
+			c.Undec(rule, t.key("concat.helper"), rec.Pos(), "%s: the accumulator is not threaded through the recursive calls (next input = previous result) and returned", fnName(h))
+		}
+	}
+	// top: result vector threaded through the helper
+	a := hc.Call.Args[1-pos]
+	okTop := c19AccOK(a, hc, func(ssa.Value) bool { return true })
+	if ld, isLd := a.(*ssa.UnOp); !okTop && isLd && ld.Op == token.MUL {
+		stores := 0
+		for _, r := range c19Refs(hc) {
+			if st, isSt := r.(*ssa.Store); isSt && st.Val == ssa.Value(hc) {
+				stores++
+				if c19SameAddr(st.Addr, ld.X) || (c19Cell(st.Addr) != nil && c19Cell(st.Addr) == c19Cell(ld.X)) {
+					okTop = true
+				}
+			}
+		}
+		if stores != 1 {
+			okTop = false
+		}
+	}
+	if okTop {
+		c.Ok(rule, t.key("concat"), hc.Pos(), "ToVector threads its result vector through %s field by field, in field order", fnName(h))
+		*done++
+	} else {
+		c.Undec(rule, t.key("concat"), hc.Pos(), "the vector handed to %s is not the result accumulator that also receives the helper's result", fnName(h))
+	}
 }
 
 // c19SliceLit: v is a slice over a fresh array literal; returns its length and the (single) stored element value.
@@ -3408,6 +3627,16 @@ func init() {
 			File2: vec, Old2: "func setFieldFloats(dst reflect.Value, floats []float64) int {\n\tswitch dst.Kind() {\n\tcase reflect.Array:\n\t\tif dst.Len() > len(floats) {\n\t\t\tpanic(fmt.Sprintf(\"array length mismatch %d != %d\", len(floats), dst.Len()))\n\t\t}\n\n\t\tnumUsed := 0\n\t\tfor i := range dst.Len() {\n\t\t\trec := setFieldFloats(dst.Index(i), floats)\n\n\t\t\tfloats = floats[rec:]\n\t\t\tnumUsed += rec\n\t\t}\n\t\treturn numUsed\n\n\tcase reflect.Float64:\n\t\tif len(floats) < 1 {\n\t\t\tpanic(\"array empty\")\n\t\t}\n\t\tdst.SetFloat(floats[0])\n\n\t\treturn 1\n\n\tdefault:\n\t\tpanic(fmt.Sprintf(\"invalid kind %v\", dst.Kind()))\n\t}\n}\n",
 			New2:   "func setFieldFloats(dst reflect.Value, floats []float64) []float64 {\n\tswitch dst.Kind() {\n\tcase reflect.Array:\n\t\tif dst.Len() > len(floats) {\n\t\t\tpanic(fmt.Sprintf(\"array length mismatch %d != %d\", len(floats), dst.Len()))\n\t\t}\n\n\t\tfor i := range dst.Len() {\n\t\t\tfloats = setFieldFloats(dst.Index(i), floats)\n\t\t}\n\t\treturn floats\n\n\tcase reflect.Float64:\n\t\tif len(floats) < 2 {\n\t\t\tpanic(\"array empty\")\n\t\t}\n\t\tdst.SetFloat(floats[0])\n\n\t\treturn floats[2:]\n\n\tdefault:\n\t\tpanic(fmt.Sprintf(\"invalid kind %v\", dst.Kind()))\n\t}\n}\n",
 			Expect: "C19.R3/SetVector#leaf.count"},
+		Mutant{Name: "C19.R3-accumulator-leaf-appends-twice", Prop: "C19", File: vec,
+			Old:   "\t\t\tfloats := getFieldFloats(structV.Field(i))\n\n\t\t\tresult.data = append(result.data, floats...)\n",
+			New:   "\t\t\tresult.data = getFieldFloats(result.data, structV.Field(i))\n",
+			File2: vec, Old2: "func getFieldFloats(v reflect.Value) []float64 {\n\tswitch v.Kind() {\n\n\tcase reflect.Float64:\n\t\treturn []float64{v.Float()}\n\n\tcase reflect.Array:\n\t\tfloats := make([]float64, 0)\n\t\tfor i := range v.Len() {\n\t\t\tsub := getFieldFloats(v.Index(i))\n\t\t\tfloats = append(floats, sub...)\n\t\t}\n\n\t\treturn floats\n\n\tdefault:\n\t\tpanic(fmt.Sprintf(\"invalid kind %v\", v.Kind()))\n\t}\n}\n",
+			New2:   "func getFieldFloats(acc []float64, v reflect.Value) []float64 {\n\tswitch v.Kind() {\n\n\tcase reflect.Float64:\n\t\treturn append(acc, v.Float(), v.Float())\n\n\tcase reflect.Array:\n\t\tfor i := range v.Len() {\n\t\t\tacc = getFieldFloats(acc, v.Index(i))\n\t\t}\n\n\t\treturn acc\n\n\tdefault:\n\t\tpanic(fmt.Sprintf(\"invalid kind %v\", v.Kind()))\n\t}\n}\n",
+			Expect: "C19.R3/ToVector#leaf"},
+		Mutant{Name: "C19.R2-ifchain-clamp-narrow-upper", Prop: "C19", File: "chess/math.go",
+			Old: "\treturn min(b, max(x, a))\n", New: "\tif x < a {\n\t\tx = a\n\t}\n\tif x > b {\n\t\tx = b\n\t}\n\treturn x\n",
+			File2: "eval/eval.go", Old2: "Clamp(int(n), 0, len(sigm)-1)", New2: "Clamp(int(n), 0, len(sigm)-2)",
+			Expect: "C19.R2/eval.sigmoidal#index"},
 		Mutant{Name: "C19.R4-target-typo", Prop: "C19", File: "tools/tuner/tuning/tuning.go", Quick: true,
 			Old: "\"MobilityKnight\", \"MobilityBishop\", \"MobilityRook\",", New: "\"MobilityKnight\", \"MobilityBishops\", \"MobilityRook\",",
 			Expect: "C19.R4/target:MobilityBishops"},
